@@ -221,3 +221,81 @@ func vhC13Type(tag string) string {
 	}
 	return verifNondetString(tag, 1)
 }
+
+// C13 with real concurrency (LOCKSCHED=1: acquiring a mutex is a scheduling point of the
+// interpreted threads): one goroutine dispatches an event, a second one unsubscribes a
+// callback while that dispatch is inside an earlier callback - i.e. while the dispatch holds
+// the lock. Once the unsubscribe function has returned, the callback is not invoked any more.
+func vhC13Threads() {
+	c := (&Client{}).NewConnection(&http.Request{Method: "GET", Header: http.Header{}})
+	var nmu sync.Mutex // native runs only: protects the flags below
+	lock := func() {
+		if !verifSymbolic() {
+			nmu.Lock()
+		}
+	}
+	unlock := func() {
+		if !verifSymbolic() {
+			nmu.Unlock()
+		}
+	}
+	inFirst := make(chan struct{}, 2)
+	removed := make(chan struct{})
+	giveUp := make(chan struct{})
+	removerReturned, lateCall, calls := false, false, 0
+	// typed callbacks run before subscribe-to-all ones: the first callback of the dispatch
+	// signals that the dispatch is under way and lingers until the other goroutine is done
+	// (or until it may not wait any longer: a correct unsubscribe blocks until the dispatch ends)
+	c.SubscribeEvent("t", func(Event) {
+		verifYield()
+		inFirst <- struct{}{}
+		verifYield()
+		select {
+		case <-removed:
+		case <-giveUp:
+		}
+	})
+	allTyped := verifChoose("victim-kind", 2) == 1
+	victim := func(Event) {
+		lock()
+		calls++
+		if removerReturned {
+			lateCall = true
+		}
+		unlock()
+	}
+	var remove EventCallbackRemover
+	if allTyped {
+		remove = c.SubscribeToAll(victim)
+	} else {
+		remove = c.SubscribeEvent("u", victim) // reached by the second dispatched event only
+	}
+	verifGo(func() {
+		c.dispatch(Event{Type: "t"})
+		if !allTyped {
+			c.dispatch(Event{Type: "u"})
+		}
+	})
+	verifGo(func() {
+		verifYield()
+		<-inFirst
+		remove()
+		lock()
+		removerReturned = true
+		unlock()
+		verifYield()
+		close(removed)
+	})
+	verifGo(func() {
+		if !verifSymbolic() {
+			time.Sleep(30 * time.Millisecond)
+		}
+		verifYield()
+		close(giveUp)
+	})
+	unfinished := verifRunThreads(verifParam("STEPS", 200))
+	verifAssert(unfinished == 0, "C13/Threads/no-deadlock")
+	verifAssert(!lateCall, "C13/no-invocation-after-unsubscribe-returned")
+	verifAssert(calls <= 1, "C13/callback-invoked-at-most-once")
+	verifCover("C13/Threads/ran")
+}
